@@ -60,6 +60,22 @@ ClausesG2(r) ==
              /\ IsPairs(r.cidx, nc)
              /\ \A k \in 1 .. nc : r.cidx[k][1] = r.cells[k][1] /\ r.cidx[k][2] = r.cells[k][2]),
           Cl("centre-index-centre-is-identity", r.cback = r.ctr),
+          \* the pixel index handed over as a Python list / a numpy integer array
+          Cl("centre-formula-integer-inputs",
+             /\ IsPairs(r.ctr_list, nc) /\ IsPairs(r.ctr_npint, nc)
+             /\ \A k \in 1 .. nc : /\ << r.ctr_list[k][1], r.ctr_list[k][2] >> = Centre(gg, r.cells[k])
+                                   /\ << r.ctr_npint[k][1], r.ctr_npint[k][2] >> = Centre(gg, r.cells[k])),
+          \* r.ip = grid_pixel_centres_2d_from(grid of the centres of r.cells), integer dtype as returned;
+          \* r.ip_scaled_int = grid_scaled_2d_from(r.ip as returned), r.ip_back = grid_pixels_2d_from(of that);
+          \* r.ip_scaled_float / r.ip_scaled_newint = grid_scaled_2d_from of the same whole numbers as floats / as a
+          \* freshly built integer grid
+          Cl("grid-centre-then-index-is-identity",
+             /\ IsPairs(r.ip, nc)
+             /\ \A k \in 1 .. nc : r.ip[k][1] = r.cells[k][1] /\ r.ip[k][2] = r.cells[k][2]),
+          Cl("integer-pixels-scaled-pixels-is-identity", r.ip_back = r.ip),
+          Cl("integer-and-float-pixel-coordinates-agree",
+             /\ IsPairs(r.ip_scaled_int, nc)
+             /\ r.ip_scaled_int = r.ip_scaled_float /\ r.ip_scaled_newint = r.ip_scaled_float),
           Cl("grid-from-mask-centres",
              /\ IsPairs(r.grid_mask, Len(r.u))
              /\ \A k \in DOMAIN r.u : << r.grid_mask[k][1], r.grid_mask[k][2] >> = Centre(gg, CellOfFlat(gg, r.u[k]))),
